@@ -84,6 +84,8 @@ type FnGen struct {
 	semiPriv    map[string]string // private prefix -> ghost escape flag (captured variables whose closures may be handed out)
 	semiPrivOf  map[*ssa.Alloc]bool
 	funcConsts  map[string]*ssa.Function // term of a function constant -> the function
+	waitChans   []Term                   // channels of the blocking wait being translated (waitson())
+	refComps    map[string]bool          // components holding references (found in pass 1)
 	privateOf   map[*ssa.Alloc]bool
 }
 
@@ -703,11 +705,34 @@ func (fg *FnGen) compName(l *Loc, leaf Leaf) string {
 	return "H:" + l.Prefix + leaf.Path
 }
 
+// isRefLeaf: the leaf holds a reference (pointer, map, channel, backing array of a slice).
+func isRefLeaf(leaf Leaf) bool {
+	if leaf.Sort != SInt {
+		return false
+	}
+	if leaf.Role == "arr" {
+		return true
+	}
+	if leaf.T != nil {
+		switch types.Unalias(leaf.T).Underlying().(type) {
+		case *types.Pointer, *types.Map, *types.Chan:
+			return true
+		}
+	}
+	return false
+}
+
 func (fg *FnGen) loadIn(st *State, l *Loc) *Val {
 	ls := layout(l.T)
 	v := &Val{T: l.T}
 	for _, leaf := range ls {
 		comp := fg.compName(l, leaf)
+		if fg.pass == 1 && isRefLeaf(leaf) {
+			if fg.refComps == nil {
+				fg.refComps = map[string]bool{}
+			}
+			fg.refComps[comp] = true
+		}
 		if l.Elem {
 			a := fg.get(st, comp, ArrSort(ArrSort(leaf.Sort)))
 			v.L = append(v.L, Select(Select(a, l.Arr), l.Idx))
@@ -907,6 +932,23 @@ func (fg *FnGen) run() (err error) {
 	}
 	fg.allocEntry = fg.get(fg.cur, "$alloc", SInt)
 	fg.assertRaw(Gt(fg.allocEntry, IntLit(0)))
+	if fg.pass == 2 {
+		// entry heap invariant: every reference stored in the heap at entry points to an object that exists at
+		// entry (needed under quantifiers, where the per-load facts are not available). Only for objects that exist
+		// at entry: callees declared `fresh` allocate objects without re-versioning the caller's components.
+		for _, comp := range fg.compOrder {
+			if !fg.refComps[comp] || strings.Contains(comp, "local!") {
+				continue
+			}
+			a := fg.cur.ver[comp]
+			switch fg.compSorts[comp] {
+			case ArrSort(SInt):
+				fg.assertRaw(Term{fmt.Sprintf("(forall ((r! Int)) (! (=> (< r! %s) (< (select %s r!) %s)) :pattern ((select %s r!))))", fg.allocEntry.S, a.S, fg.allocEntry.S, a.S), SBool})
+			case ArrSort(ArrSort(SInt)):
+				fg.assertRaw(Term{fmt.Sprintf("(forall ((r! Int) (i! Int)) (! (=> (< r! %s) (< (select (select %s r!) i!) %s)) :pattern ((select (select %s r!) i!))))", fg.allocEntry.S, a.S, fg.allocEntry.S, a.S), SBool})
+			}
+		}
+	}
 	// parameters
 	bindParam := func(p ssa.Value, name string) {
 		v := &Val{T: p.Type()}
